@@ -92,7 +92,10 @@ JudgeP(c) ==
   LET s == S[c.s]
       d0 == DecM(s, c.b, FALSE)
       whole0 == d0.ok /\ d0.rest = <<>>
-      malformed == ~d0.ok \/ (c.s \in Exact /\ d0.rest # <<>>)
+      \* content rule the framing cannot express (RFC 8879 sec. 4): the zlib stream of a CompressedCertificate inflates to
+      \* exactly the advertised uncompressed_length; c.infl = what it inflates to (leaf fact from stdlib zlib, -2 = n/a)
+      badContent == c.s = "CompressedCertificate" /\ d0.ok /\ c.infl # -2 /\ c.infl # d0.v[2][2]
+      malformed == ~d0.ok \/ (c.s \in Exact /\ d0.rest # <<>>) \/ badContent
   IN IF malformed
      THEN (IF c.acc THEN Bad("accepted-malformed")
            ELSE IF c.exc # "decode" THEN Bad("wrong-exception") ELSE Bump(4))
